@@ -45,9 +45,12 @@ class Str:
     """string: concrete (s is a python str) or symbolic atom (sym is a z3 Int identity; supports only equality/clone).
     Concrete strings are interned to integer identities >= 0 below 2**20; symbolic atoms range over all ints, so a
     symbolic atom may equal any concrete string or none."""
-    __slots__ = ('s', 'sym', 'parts')
+    __slots__ = ('s', 'sym', 'parts', 'canon')
     INTERN = {}
-    def __init__(self, s=None, sym=None, num=None, parts=None):
+    def __init__(self, s=None, sym=None, num=None, parts=None, canon=None):
+        # canon: True = these are the bytes of the canonical form of the address named s / sym (the canonicalisation is an abstract
+        # injection; the MockApi one is applied when bytes are needed); a list of Str = concatenation of such segments
+        self.canon = canon
         # parts: for a symbolic text, what it renders: list of str | ('int', term) | ('dec', term) | Str (a symbolic atom)
         self.s = s; self.sym = sym; self.parts = parts if parts is not None else ([num] if num is not None else None)
     @property
@@ -61,6 +64,26 @@ class Str:
             k = len(Str.INTERN); Str.INTERN[self.s] = k
         return z3.IntVal(k)
     def __repr__(self): return 'Str(%r)' % (self.s,) if self.sym is None else 'Str<%s>' % self.sym
+
+
+def mock_canonicalize(s):
+    """cosmwasm_std::testing::MockApi::addr_canonicalize (1.5): pad to 90, rotate, 10 riffle shuffles."""
+    out = list(s.lower().encode()) + [0] * (90 - len(s.encode()))
+    rot = sum(out) % 90
+    out = out[rot:] + out[:rot]
+    for _ in range(10):
+        mid = len(out) // 2; l, r = out[:mid], out[mid:]
+        nxt = []
+        for i in range(mid): nxt.append(r[i]); nxt.append(l[i])
+        out = nxt
+    return bytes(out)
+
+
+def raw_bytes(x):
+    """bytes of a concrete Str (canonical segments expanded with the MockApi canonicalisation)."""
+    if x.canon is True: return mock_canonicalize(x.s)
+    if x.canon: return b''.join(raw_bytes(y) for y in x.canon)
+    return x.s.encode()
 
 
 class VecV:
